@@ -458,11 +458,14 @@ func coveringDesign() *dg.Design {
 		{Name: "Box", Base: dg.Obj(dg.F("any", anyT), dg.F("list", dg.ArrayOf(dg.A(anyT))), dg.F("n", dg.Prim("Int")))},
 	}
 	d.Types = append(d.Types, coveringResponseTypes()...)
+	d.Types = append(d.Types, coveringViewTypes()...)
 	svc := &dg.Service{Name: "cov", BasePath: "/c"}
 	add := func(m *dg.Method) { svc.Methods = append(svc.Methods, m) }
 	coveringResponses(add)
 	coveringWave3(add)
 	coveringMapParams(add)
+	coveringPatterns(add)
+	coveringViews(add)
 	rt1 := func(verb, p string) []dg.Route { return []dg.Route{{Verb: verb, Path: p}} }
 
 	// catch-all pairs: same literal prefix, different verbs, different wildcard names
@@ -512,7 +515,7 @@ func coveringDesign() *dg.Design {
 			Headers:   []dg.MapEntry{me("hi", "X-Hi"), me("hu", "X-Hu")},
 			Responses: []dg.Response{{Status: 200, Headers: []dg.MapEntry{me("rhi", "X-Rhi"), me("rhu", "X-Rhu")}}}}})
 
-	d.Services = []*dg.Service{svc}
+	d.Services = []*dg.Service{svc, coveringSecondService()}
 	return d
 }
 
@@ -571,6 +574,8 @@ func coveringFixed(prop string) []witnessCase {
 	}
 	cs = append(cs, coveringResponseCases(prop)...)
 	cs = append(cs, wave3Cases(prop)...)
+	cs = append(cs, patternCases(prop)...)
+	cs = append(cs, viewCases(prop)...)
 	return cs
 }
 
@@ -583,6 +588,9 @@ func coveringWitness(prop string) []witnessCase {
 		cs = append(cs, witnessCase{Method: "anyb", Payload: vO("id", vS("i"), "m", vM(vS("k"), vA(vI(-3)))), Result: vO("id", vS("r")), Expect: "any-integer-arrives-float64"})
 	}
 	if prop == "C03" {
+		ch := func(id int64, name string) *dg.Val { return vO("id", vI(id), "name", vS(name)) }
+		cs = append(cs, witnessCase{Method: "vfold", View: "norq", Expect: "view-omits-required-nested-attribute-client-panics",
+			Result: vO("summary", ch(1, "s"), "detail", ch(2, "d"), "kids", vA(ch(3, "k")), "title", vS("t"))})
 		cs = append(cs, witnessCase{Method: "anyb", Payload: vO("id", vS("p")), Result: vO("id", vS("r"), "a", vI(7)), Expect: "any-integer-arrives-float64"})
 	}
 	return cs
